@@ -153,11 +153,23 @@ public:
         );
     }
 
-    void resend_publish(control_packet<allocator_type> publish) {
-        if (_handler.cancelled() != asio::cancellation_type_t::none)
-            return complete(
-                asio::error::operation_aborted, publish.packet_id()
-            );
+    // holds_quota tells whether this operation still counts against the
+    // Receive Maximum quota: it does not after a reconnect (try_again),
+    // because the quota has been reset and is only consumed again
+    // once the packet is rewritten.
+    void resend_publish(
+        control_packet<allocator_type> publish, bool holds_quota
+    ) {
+        if (_handler.cancelled() != asio::cancellation_type_t::none) {
+            if constexpr (qos_type == qos_e::at_most_once)
+                return complete(asio::error::operation_aborted);
+            else
+                return complete(
+                    asio::error::operation_aborted, publish.packet_id(),
+                    reason_codes::empty, on_publish_props_type<qos_type> {},
+                    holds_quota
+                );
+        }
         send_publish(std::move(publish));
     }
 
@@ -166,7 +178,7 @@ public:
         error_code ec
     ) {
         if (ec == asio::error::try_again)
-            return resend_publish(std::move(publish));
+            return resend_publish(std::move(publish), false);
 
         if constexpr (qos_type == qos_e::at_most_once)
             return complete(ec);
@@ -205,7 +217,7 @@ public:
         error_code ec, byte_citer first, byte_citer last
     ) {
         if (ec == asio::error::try_again) // "resend unanswered"
-            return resend_publish(std::move(publish.set_dup()));
+            return resend_publish(std::move(publish.set_dup()), false);
 
         uint16_t packet_id = publish.packet_id();
 
@@ -217,14 +229,14 @@ public:
         );
         if (!puback.has_value()) {
             on_malformed_packet("Malformed PUBACK: cannot decode");
-            return resend_publish(std::move(publish.set_dup()));
+            return resend_publish(std::move(publish.set_dup()), true);
         }
 
         auto& [reason_code, props] = *puback;
         auto rc = to_reason_code<reason_codes::category::puback>(reason_code);
         if (!rc) {
             on_malformed_packet("Malformed PUBACK: invalid Reason Code");
-            return resend_publish(std::move(publish.set_dup()));
+            return resend_publish(std::move(publish.set_dup()), true);
         }
 
         complete(ec, packet_id, *rc, std::move(props));
@@ -239,7 +251,7 @@ public:
         error_code ec, byte_citer first, byte_citer last
     ) {
         if (ec == asio::error::try_again) // "resend unanswered"
-            return resend_publish(std::move(publish.set_dup()));
+            return resend_publish(std::move(publish.set_dup()), false);
 
         uint16_t packet_id = publish.packet_id();
 
@@ -251,7 +263,7 @@ public:
         );
         if (!pubrec.has_value()) {
             on_malformed_packet("Malformed PUBREC: cannot decode");
-            return resend_publish(std::move(publish.set_dup()));
+            return resend_publish(std::move(publish.set_dup()), true);
         }
 
         auto& [reason_code, props] = *pubrec;
@@ -259,7 +271,7 @@ public:
         auto rc = to_reason_code<reason_codes::category::pubrec>(reason_code);
         if (!rc) {
             on_malformed_packet("Malformed PUBREC: invalid Reason Code");
-            return resend_publish(std::move(publish.set_dup()));
+            return resend_publish(std::move(publish.set_dup()), true);
         }
 
         if (*rc)
@@ -455,9 +467,10 @@ private:
     >
     void complete(
         error_code ec, uint16_t packet_id,
-        reason_code rc = reason_codes::empty, Props&& props = Props {}
+        reason_code rc = reason_codes::empty, Props&& props = Props {},
+        bool holds_quota = true
     ) {
-        _svc_ptr->free_pid(packet_id, true);
+        _svc_ptr->free_pid(packet_id, holds_quota);
         _handler.complete(ec, rc, std::forward<Props>(props));
     }
 
